@@ -84,6 +84,12 @@ def check(m, run):
     run.floor('PU2.copy-when-not-inplace', 12, '6 functions x 2')
     run.floor('AL3.rotation-matrix', 9, '3 rotations x (orthogonal, det, axis)')
     run.floor('LY3.sizes-in-axis-order', 10, 'control point setters of surfaces and volumes')
+    # the object returned without inplace is a deep copy that shares nothing (cache included) with the argument
+    rs.iv4_deepcopy(m, run)
+    # the rotation origin is the start of the domain: the domain of a direction is [knot[degree], knot[-(degree + 1)]]
+    from . import c17 as _c17
+    _c17.dom1(m, run)
+    _c17.domain_getter(m, run)
 
 
 def pu3(m, run, P):
